@@ -87,7 +87,7 @@ def _shard(sh: Dict[str, Any]) -> Dict[str, Any]:
             m = e.model()
             cex.append({"shape": si, "rich": sh["rich"], "nframes": sh["frames"], "nctx": sh["ctxs"], "ntext": sh["texts"], "flags": {k: m.get(k) for k in list(FL.used) + ["opt_ascii_only", "opt_show_contexts", "opt_show_hidden_frames"]}, "why": why})
 
-    eng = Engine(max_seconds=sh.get("budget", 600))
+    eng = Engine(max_seconds=sh.get("budget", 600), max_paths=3_000_000)
     eng.explore(harness)
     return par.shard_result(eng, shard=f"shape{si}", cex=cex, samples=samples)
 
@@ -101,8 +101,8 @@ def run(rep: Any, tier: str, seed: int) -> None:
                   "flags": "every hide / hide_line / is_exiting / is_async / presence flag of the flagged nodes and the 3 options as z3 Bools",
                   "texts": F.TEXTS}
     rep.outside = ["strings containing newlines in descriptions", "trees beyond the shape table", "symbolic strings"]
-    rich, nfr, nctx, ntext = (0, 1, 2, 1) if tier == "quick" else (1, 2, 3, 2)
-    res = par.run_shards("harness.c18", "_shard", [{"shape": i, "rich": rich, "frames": nfr, "ctxs": nctx, "texts": ntext, "budget": 600 if tier == "quick" else 2400,
+    rich, nfr, nctx, ntext = (0, 1, 2, 1) if tier == "quick" else (1, 2, 2, 1)
+    res = par.run_shards("harness.c18", "_shard", [{"shape": i, "rich": rich, "frames": nfr, "ctxs": nctx, "texts": ntext, "budget": 600 if tier == "quick" else 1500,
                                                     "opts": [a, b, c]}
                                                    for i in range(len(F.shapes())) for a in (False, True) for b in (False, True) for c in (False, True)])
     for c in par.fold(rep, OB, res):
